@@ -186,7 +186,10 @@ pub fn field_check_owned(bytes: &[u8], owners: (u8, u8), base_ok: bool, props: &
         Ok(r) => r,
         Err(_) => return None,
     };
-    let mine = base_ok && (owners.0 == 255 || props.contains(&owners.0) || props.contains(&owners.1));
+    // every varied field must be this property's (0 = a field nobody judges): in a pair (own field, foreign field) the
+    // failure may stem from the foreign field's value
+    let own = |o: u8| o == 0 || props.contains(&o);
+    let mine = base_ok && (owners.0 == 255 || ((props.contains(&owners.0) || props.contains(&owners.1)) && own(owners.0) && own(owners.1)));
     match decode(bytes) {
         Decoded::Ok(frame) => {
             loc.inc("accepted");
